@@ -8,6 +8,10 @@ spec/system/ConfigSim.tla    seeded `tlc -simulate` sampling of the whole size d
 harness/cmd/sysrun           replays one configuration in a child process on the real platform through the
                              repository's runner; oracle = the workload's own Verify() (host reference), recovered panic /
                              exit status / structurally detected hang
+spec/system/System.tla       design-level model of driver queue -> command processor -> CUs over several GPUs: exhaustive
+                             check of exactly-once / no-early-response / flush-before-copy / termination; named deviations give
+                             the expected counterexamples (one is the copy-command hang found here); tied to SysTrace.tla in
+                             both directions
 spec/system/SysTrace.tla     system-level trace validation of a sample of the runs (command / launch / work-group
                              exactly-once / flush-before-copy rules): rejects a passing run that broke an intermediate rule
 
